@@ -146,25 +146,41 @@ func c03Spec(maxCost int64, internal bool, costFn bool, keys []int, depth int) *
 					given[h.Op.Val] = h.Op.Cost
 				}
 			}
-			var applied *vsched.Event
+			// which Set put each buffered item there: by ORDER (the value carried by the item is what
+			// the implementation makes of it, and is not trusted here)
+			var q []int64
+			var cur, head int64 = -1, -1
 			for i := range r.Events {
 				e := &r.Events[i]
 				switch e.Kind {
+				case evSetCall:
+					cur = e.B
+				case evDelCall, evWaitCall, evGetCall, evGetTTLCall:
+					cur = -1
+				case evClearRet:
+					q = nil
+				case evEnq:
+					if e.C == 0 || e.C == 2 {
+						q = append(q, cur)
+					} else {
+						q = append(q, -1)
+					}
 				case evApplied:
-					applied = e
+					head = -1
+					if len(q) > 0 {
+						head, q = q[0], q[1:]
+					}
 				case evItemCost:
-					if applied != nil && applied.A == e.A && (applied.C == 0 || applied.C == 2) && applied.B != 0 {
-						if c, ok := given[applied.B]; ok && c == 0 {
-							want := applied.B%3 + 1
-							if internal {
-								want += int64(ristretto.VerifItemSize)
-							}
-							if e.B != want {
-								out = append(out, Viol{Key: "C03/item-cost-differs-from-config-cost", What: fmt.Sprintf("value %d of key %d was set with cost 0: Config.Cost says %d (internal cost included), the applier charged %d", applied.B, e.A, want, e.B)})
-							}
+					if c, ok := given[head]; ok && head > 0 && c == 0 {
+						want := head%3 + 1
+						if internal {
+							want += int64(ristretto.VerifItemSize)
+						}
+						if e.B != want {
+							out = append(out, Viol{Key: "C03/item-cost-differs-from-config-cost", What: fmt.Sprintf("value %d of key %d was set with cost 0: Config.Cost says %d (internal cost included), the applier charged %d", head, e.A, want, e.B)})
 						}
 					}
-					applied = nil
+					head = -1
 				}
 			}
 			return out
@@ -187,7 +203,35 @@ func c03Spec(maxCost int64, internal bool, costFn bool, keys []int, depth int) *
 		r.Probe["remaining"] = c.Remaining()
 		r.Probe["maxcost"] = c.MaxCost()
 	}
-	spec.Abstract = func(r *SeqRun, ren func(int64) int64) string { return fmt.Sprint(c03Taint(r.Events)) }
+	spec.Abstract = func(r *SeqRun, ren func(int64) int64) string {
+		out := fmt.Sprint(c03Taint(r.Events))
+		if costFn {
+			// the cost oracle remembers which pending / resident values were given with cost 0:
+			// part of the state (a cost-0 Set and an explicit-cost Set can reach equal cache states)
+			given := map[int64]int64{}
+			for _, h := range r.Hist {
+				if h.K == "op" && h.Op != nil && (h.Op.K == "set" || h.Op.K == "setttl") {
+					given[h.Op.Val] = h.Op.Cost
+				}
+			}
+			var zs []int64
+			for _, e := range r.Post.Store {
+				if c, ok := given[e.Value]; ok && c == 0 {
+					zs = append(zs, ren(e.Value))
+				}
+			}
+			for _, it := range r.Post.SetBufItems {
+				if v, _ := it.Value.(int64); v != 0 {
+					if c, ok := given[v]; ok && c == 0 {
+						zs = append(zs, ren(v))
+					}
+				}
+			}
+			sort.Slice(zs, func(i, j int) bool { return zs[i] < zs[j] })
+			out += fmt.Sprint(zs)
+		}
+		return out
+	}
 	return spec
 }
 
